@@ -244,7 +244,7 @@ def run_writer(case, res):
 # ----------------------------------------------------------------------------------
 # reader side: independent encoder
 # ----------------------------------------------------------------------------------
-def model_tree(rng, typed):
+def model_tree(rng, typed, dk="child"):
     """nested [label, kind, explicit id|None, kids]; siblings have distinct ids; explicit ids identify labels."""
     n = rng.randint(0, 12)
     f = gen.random_forest(rng, n)
@@ -261,7 +261,7 @@ def model_tree(rng, typed):
             lab, did = f"n{i}", None
         labs.append(lab)
         ids.append(did)
-        kinds.append(rng.choice(["ka", "kb", "kc", "child", "child"]) if typed else None)
+        kinds.append(rng.choice(["ka", "kb", "kc", dk, dk]) if typed else None)
 
     cnt = [0]
 
@@ -276,7 +276,7 @@ def model_tree(rng, typed):
     return rec(f)
 
 
-def encode(model, rng, typed, variant):
+def encode(model, rng, typed, variant, dk="child"):
     """Independent encoder of the documented layout."""
     key_map = {}
     if variant["key_map"]:
@@ -306,20 +306,21 @@ def encode(model, rng, typed, variant):
             if ident in first and first[ident][1] == kind and variant["refs"] and rng.random() < 0.9:
                 nodes.append([parent_pos, first[ident][0]])
             else:
-                if did is None and (variant["plain_str"] or rng.random() < 0.5) and (not typed or (kind == "child" and variant.get("typed_plain_str"))):
+                if did is None and (variant["plain_str"] or rng.random() < 0.5) and (not typed or (kind == dk and variant.get("typed_plain_str"))):
                     entry = lab  # typed reader: a plain-string entry (as a plain Tree writes it) gets the default kind
                 else:
                     entry = {"str": lab}
                     if did is not None:
                         entry["data_id"] = did
-                    if typed and not (variant["omit_default_kind"] and kind == "child"):
+                    if typed and not (variant["omit_default_kind"] and kind == dk):
                         entry["kind"] = kind
                     if value_map and "kind" in entry:
                         entry["kind"] = value_map["kind"].index(entry["kind"])
                     entry = {key_map.get(k, k): v for k, v in entry.items()}
                     if not key_map and variant.get("user_short_keys"):
                         # no key map declared: keys that merely look like the default short keys are ordinary user keys
-                        entry.update({"s": "user-s", "i": "user-i", "k": "user-k"})
+                        # (the same for the short keys that *other* documents of this run declare: S, D, K)
+                        entry.update({"s": "user-s", "i": "user-i", "k": "user-k", "S": "user-S", "D": "user-D", "K": "user-K"})
                 nodes.append([parent_pos, entry])
                 first.setdefault(ident, (pos, kind))
             emit(kids, pos)
@@ -349,6 +350,9 @@ def model_shape(model):
     return rec(model)
 
 
+_SHARED_FMETA = {}
+
+
 def run_reader(case, res):
     from nutree import Tree
     from nutree.typed_tree import TypedTree
@@ -358,11 +362,18 @@ def run_reader(case, res):
     bad = []
     try:
         with case_deadline(60):
-            model = model_tree(rng, typed)
             variant = case["variant"]
-            doc = encode(model, rng, typed, variant)
-            text = json.dumps(doc)
             cls = TypedTree if typed else Tree
+            dk = "child"
+            if typed and variant.get("subclass"):
+                class KidTree(TypedTree):
+                    """A user subclass with a default kind of its own: entries without `kind` get *this* class's default."""
+                    DEFAULT_CHILD_TYPE = "kid"
+
+                cls, dk = KidTree, "kid"
+            model = model_tree(rng, typed, dk)
+            doc = encode(model, rng, typed, variant, dk)
+            text = json.dumps(doc)
             has_ids = '"data_id"' in text or '"D"' in text
             kw = {}
             seen_user = []
@@ -381,7 +392,8 @@ def run_reader(case, res):
                     return data["str"]
 
                 kw["mapper"] = _m
-            fmeta = {}
+            # every second document is loaded with one long-lived file_meta dict (it still holds the previous document's header)
+            fmeta = _SHARED_FMETA if case["seed"] % 2 else {}
             res.count("reader_docs")
             res.observe("documents_loaded", text)
             entries = len(doc["nodes"])
@@ -603,7 +615,7 @@ def run_shard(spec, res):
             typed = rng.random() < 0.5
             variant = {"key_map": rng.choice([False, True, "partial"]), "value_map": rng.random() < 0.5, "refs": rng.random() < 0.7,
                        "plain_str": rng.random() < 0.5, "omit_default_kind": rng.random() < 0.3, "generator": rng.choice(GENERATORS),
-                       "user_meta": rng.random() < 0.5, "user_short_keys": rng.random() < 0.4, "via_path": rng.random() < 0.3, "typed_plain_str": rng.random() < 0.5, "consuming": rng.random() < 0.35}
+                       "user_meta": rng.random() < 0.5, "user_short_keys": rng.random() < 0.4, "via_path": rng.random() < 0.3, "typed_plain_str": rng.random() < 0.5, "consuming": rng.random() < 0.35, "subclass": rng.random() < 0.35}
             run_case({"kind": "reader", "seed": rng.randrange(10**9), "typed": typed, "variant": variant}, res)
             if res.expired():
                 break
